@@ -1,20 +1,19 @@
 ----------------------------- MODULE IsaAliasTab -----------------------------
 (* Tables of the register-symbol dimension (IsaAlias), built from the ISA table: the register literals of the   *)
-(* CPU with their size class, and the forms that have a register field with IsaGen's representative operands.   *)
+(* CPU with their size class, the distinct register fields, and the forms that have a register field.            *)
 (* Kept apart from IsaAlias so that the instantiating module can bind them to constant definitions of its own   *)
 (* (TLC evaluates those once; definitions reached through a parameterised INSTANCE are re-evaluated per use).   *)
 EXTENDS IsaCommon
-CONSTANTS FormsOfCpu, HasPc(_), SeqPC, RepOps(_, _), RegClass(_)
+CONSTANTS FormsOfCpu, RegClass(_)
 RegPos(f) == {i \in 1..Len(f.flds) : f.flds[i].k = "enum" /\ RegClass(f.flds[i]) # ""}
 AliasForms == {f \in FormsOfCpu : RegPos(f) # {}}
 RegFlds == UNION {{f.flds[i] : i \in RegPos(f)} : f \in AliasForms}
 RECURSIVE SeqOf(_)
 SeqOf(S) == IF S = {} THEN <<>> ELSE LET x == CHOOSE y \in S : TRUE IN <<x>> \o SeqOf(S \ {x})
 MkLitTab == SeqOf(UNION {{[l |-> fld.names[j][1], c |-> RegClass(fld)] : j \in 1..Len(fld.names)} : fld \in RegFlds})
-\* forms that have a register field, numbered (the number makes the symbol names of a case unique), with IsaGen's
-\* representative operands o and, per register field position i, the indices ts of the literals (of lt) the field lists
-MkFormTab(lt) ==
-  SeqOf({[f |-> f, o |-> RepOps(f, IF HasPc(f) THEN SeqPC ELSE 0),
-          p |-> SeqOf({[i |-> i, ts |-> SeqOf({t \in 1..Len(lt) : \E j \in 1..Len(f.flds[i].names) : f.flds[i].names[j][1] = lt[t].l})]
-                       : i \in RegPos(f)})] : f \in AliasForms})
+\* the distinct register fields with the set of literals each lists
+MkFldTab == SeqOf({[fld |-> fld, names |-> {fld.names[j][1] : j \in 1..Len(fld.names)}] : fld \in RegFlds})
+\* forms that have a register field, numbered (the number makes the symbol names of a case unique), with the
+\* register field positions p
+MkFormTab == SeqOf({[f |-> f, p |-> SeqOf(RegPos(f))] : f \in AliasForms})
 =============================================================================
